@@ -46,7 +46,7 @@ struct Handles : Profile {
     {
         return {"stale-rejected", "wrongkind-rejected", "never-rejected", "double-release-rejected", "close-refused-with-aids", "nested-open",
                 "upgrade-open", "foreign-rejected", "teardown", "identity-checked", "shadow-run-compared", "wrongkind-hlevel",
-                "stale-extra-call", "wrongkind-extra-call", "never-extra-call", "aid-on-special-element", "badopen-refused"};
+                "stale-extra-call", "wrongkind-extra-call", "never-extra-call", "aid-on-special-element", "badopen-refused", "more-than-256-sd-files"};
     }
 
     Plan generate(Rng &rng, bool thorough, uint64_t) override
@@ -56,9 +56,11 @@ struct Handles : Profile {
         Rng r  = rng.sub(2);
         int nops = (int)r.range(30, thorough ? 160 : 120);
         static const std::vector<int> w     = {/*hopen*/ 8, /*acquire*/ 30, /*release*/ 22, /*check*/ 8, /*stale*/ 14, /*wrongkind*/ 8, /*never*/ 4,
-                                               /*closebusy*/ 4, /*foreign*/ 3, /*teardown*/ 2, /*use*/ 10, /*badopen*/ 3};
-        static const char            *names[] = {"hopen", "acquire", "release", "check", "stale", "wrongkind", "never", "closebusy", "foreign", "teardown", "use", "badopen"};
+                                               /*closebusy*/ 4, /*foreign*/ 3, /*teardown*/ 2, /*use*/ 10, /*badopen*/ 3, /*manyfiles*/ 0};
+        static const char            *names[] = {"hopen", "acquire", "release", "check", "stale", "wrongkind", "never", "closebusy", "foreign", "teardown", "use", "badopen", "manyfiles"};
         p.ops.push_back(mkop(0, "hopen", {0, 0}));
+        if (r.chance(0.03)) // rarely, and first: several hundred SD files open at once (ids carry the number of the file's slot)
+            p.ops.push_back(mkop(0, "manyfiles", {257 + (int64_t)r.below(8)}));
         for (int i = 0; i < nops; i++) {
             int k = r.weighted(w);
             switch (k) {
@@ -868,6 +870,39 @@ struct Handles : Profile {
                         ctx.probe("foreign-rejected");
                     }
                 }
+            }
+            else if (k == "manyfiles") {
+                // More SD files open at once than fit in 8 bits: dataset and dimension ids of the files in the high slots
+                // designate objects of THEIR file.
+                int n = (int)std::max<int64_t>(2, std::min<int64_t>(300, o.arg(0)));
+                simfs::set_nofile_limit(2048);
+                std::vector<int32> sd((size_t)n, FAIL), ds((size_t)n, FAIL);
+                for (int q = 0; q < n; q++) {
+                    int32 dm[1] = {2 + q % 3};
+                    sd[(size_t)q] = SDstart(strf("/sim/many%03d.hdf", q).c_str(), DFACC_CREATE);
+                    ds[(size_t)q] = sd[(size_t)q] == FAIL ? FAIL : SDcreate(sd[(size_t)q], strf("ds_of_%03d", q).c_str(), DFNT_INT16, 1, dm);
+                    if (ds[(size_t)q] == FAIL || SDsetdimname(SDgetdimid(ds[(size_t)q], 0), strf("dim_of_%03d", q).c_str()) == FAIL)
+                        ctx.fail("acquire-failed", "acquire-failed:manyfiles", strf("SD file number %d of %d cannot be created: %s", q, n, herr().c_str()));
+                }
+                for (int q = 0; q < n; q++) {
+                    char  nm[256] = "", dn[256] = "";
+                    int32 rank = 0, dims[H4_MAX_VAR_DIMS], nt = 0, na = 0, size = 0, dnt = 0, dna = 0;
+                    int32 dim = SDgetdimid(ds[(size_t)q], 0);
+                    ctx.st.checks++;
+                    if (SDgetinfo(ds[(size_t)q], nm, &rank, dims, &nt, &na) == FAIL || strf("ds_of_%03d", q) != nm)
+                        ctx.fail("alias", "alias:sds-many-files", strf("the dataset id of file %d of %d open files answers for '%s'", q, n, nm));
+                    if (dim == FAIL || SDdiminfo(dim, dn, &size, &dnt, &dna) == FAIL || strf("dim_of_%03d", q) != dn || size != 2 + q % 3)
+                        ctx.fail("alias", "alias:dim-many-files", strf("the dimension id of file %d of %d open files answers for '%s' (size %d)", q, n, dn, (int)size));
+                    for (int q2 = 0; q2 < q; q2++)
+                        if (q2 % 64 == q % 64 && SDgetdimid(ds[(size_t)q2], 0) == dim)
+                            ctx.fail("alias", "alias:dim-id-many-files", strf("files %d and %d (of %d open) give the same dimension id", q2, q, n));
+                }
+                for (int q = n - 1; q >= 0; q--) {
+                    if (SDendaccess(ds[(size_t)q]) == FAIL || SDend(sd[(size_t)q]) == FAIL)
+                        ctx.fail("release-failed", "release-failed:manyfiles", strf("closing SD file number %d of %d failed: %s", q, n, herr().c_str()));
+                    simfs::disk().erase(strf("/sim/many%03d.hdf", q));
+                }
+                ctx.probe("more-than-256-sd-files");
             }
             else if (k == "badopen") {
                 // Opens that must fail -- a file that is not there, a file that is no HDF file -- return the failure value and
